@@ -246,7 +246,8 @@ def gen_plasma(rng, nprov):
             "electron": gen_dist(rng, 5.4858e-4, 5e19, 200.0), "composition": comp, "geometry": gen_geometry(rng),
             "geometry_transform": gen_transform(rng, 0.1) if rng.random() < 0.4 else None,
             "integrator_step": rng.choice([0.02, 0.035, 0.05]), "provider": rng.randrange(nprov),
-            "models": [gen_plasma_model(rng, comp) for _ in range(rng.choice([0, 1, 2, 2, 3]))]}
+            "models": [gen_plasma_model(rng, comp) for _ in range(rng.choice([0, 1, 2, 2, 3]))],
+            "rider": gen_rider(rng, "p")}
 
 
 def gen_beam(rng, nprov, plasmas, pi):
@@ -257,7 +258,19 @@ def gen_beam(rng, nprov, plasmas, pi):
          "models": [gen_beam_model(rng, plasmas[pi]["composition"], el) for _ in range(rng.choice([0, 1, 2, 2, 3]))]}
     for a in BEAM_ATTRS:
         b[a] = gen_beam_value(rng, a)
+    b["rider"] = gen_rider(rng, "b")
     return b
+
+
+def gen_rider(rng, kind):
+    """A user primitive parented to the plasma / beam node itself (small emitting sphere well away from every bounding volume)."""
+    if rng.random() < 0.6:
+        return None
+    if kind == "b":
+        return [round(rng.uniform(-0.3, 0.3), 3), round(rng.uniform(-0.3, 0.3), 3), round(rng.uniform(-7.0, -5.0), 3)]
+    d = gen_unit(rng)
+    r = rng.uniform(4.0, 5.0)
+    return [round(c * r, 3) for c in d]
 
 
 def axis_point(spec, kind, i, z):
@@ -590,6 +603,7 @@ class Scene:
         self.pcounter = [0]
         self.pfault_at = {}
         self.rider = None
+        self.riders = {}
 
 
 def build_scene(spec):
@@ -636,7 +650,17 @@ def build_plasma(s, spec, i):
         except ValueError:
             if ps["geometry"] is not None and ps["provider"] is not None:
                 raise          # only a plasma without geometry / atomic data may refuse its models
+    attach_rider(s, ("p", i), p, ps.get("rider"))
     return p
+
+
+def attach_rider(s, key, node, pos):
+    """The user's own child primitive goes in last: whatever order the node was configured in, it is a child of the node."""
+    s.riders.pop(key, None)
+    if pos:
+        from raysect.optical.material import UniformVolumeEmitter
+        from raysect.optical.library.spectra.colours import green
+        s.riders[key] = (Sphere(0.05, parent=node, transform=translate(*pos), material=UniformVolumeEmitter(green, 0.02), name="rider"), node, pos)
 
 
 def build_beam(s, spec, i):
@@ -651,6 +675,7 @@ def build_beam(s, spec, i):
     b.integrator = mk_integrator(bs["integrator_step"])
     if bs["models"]:
         b.models = [mk_beam_model(m) for m in bs["models"]]
+    attach_rider(s, ("b", i), b, bs.get("rider"))
     return b
 
 
@@ -705,7 +730,8 @@ class SceneMachine(Machine):
     assumptions = [
         "rtol 1e-9 plus an absolute floor of 1e-12*max|reference| (legitimate noise measured <= 5e-15)",
         "scenes always have a geometry, an atomic-data provider and (beams) an attenuator: prerequisites are never unset",
-        "beams are never parented to a plasma node (Plasma detaches all of its children when it reconfigures)",
+        "user children of plasma / beam / laser nodes are small emitting spheres away from every bounding volume ('riders'); beams are not parented to plasma nodes",
+        "user callbacks on plasma.notifier / laser.notifier only re-assign an attribute of another node to its current value and never raise",
         "a model instance is attached to one emitter at a time",
     ]
     rule = ("cases = seeded (initial scene specification, op list of mutators / observations / gc / drops / provider faults); "
@@ -747,6 +773,13 @@ class SceneMachine(Machine):
         enabled = rng.sample(kinds, rng.randint(2, min(len(kinds), 9)))
         ops = []
         gspec = copy.deepcopy(spec)        # the generator's own view of the evolving configuration (no feedback from the system)
+        if "hook.add" in kinds and rng.random() < 0.2:
+            # swarm: user callbacks are part of the environment from the start of this run, whatever mutator kinds it enables;
+            # nodes and models created afterwards subscribe behind them
+            for _ in range(rng.randint(1, 2)):
+                ops.append(self._gen_mutator(rng, gspec, "hook.add", nprov))
+            if "p.comp.add" not in enabled:
+                enabled.append(rng.choice(["p.comp.add", "p.electron", "p.bfield"]))
         for _ in range(rng.randint(4, 40 if tier == "quick" else 60)):
             u = rng.random()
             if u < 0.45:
@@ -797,7 +830,9 @@ class SceneMachine(Machine):
         k = ["p.bfield", "p.electron", "p.comp.add", "p.comp.set", "p.comp.set.bad", "p.comp.clear", "p.geometry", "p.geomtransform", "p.integrator",
              "p.models.set", "p.models.add", "p.models.clear", "p.models.readd", "p.models.set.bad", "p.models.permute", "p.model.attr", "p.reassign", "p.caller.mutate", "p.unset",
              "p.atomic_data", "p.transform", "p.parent",
-             "frame.transform", "p.recreate"]
+             "frame.transform", "p.recreate", "p.reject"]
+        if spec["beams"] or spec.get("laser"):
+            k += ["hook.add", "hook.add"]
         if spec["beams"]:
             k += ["b.set", "b.set", "b.element", "b.atomic_data", "b.plasma", "b.attenuator", "b.att.reassign", "b.att.step", "b.att.clamp_sigma",
                   "b.models.set", "b.models.add", "b.models.clear", "b.models.readd", "b.models.set.bad", "b.models.permute", "b.reassign", "b.caller.mutate", "b.model.line", "b.integrator", "b.transform", "b.parent",
@@ -880,6 +915,18 @@ class SceneMachine(Machine):
             names = sorted(spec["frames"])
             op["name"] = rng.choice(names)
             op["t"] = gen_transform(rng, 0.15)
+        elif kind == "p.reject":
+            op["attr"] = "integrator"
+        elif kind == "hook.add":
+            # a user callback on a public notifier that re-assigns an attribute of another node to its current value
+            targets = [["b", j, w] for j in range(nb) for w in BEAM_ATTRS + ["atomic_data", "plasma", "integrator", "element"]]
+            ltargets = [["l", 0, w] for w in ("profile", "spectrum", "plasma", "importance")] if spec.get("laser") else []
+            if targets and ltargets and rng.random() < 0.3:
+                op["src"], op["act"] = "l", rng.choice(targets)         # (Beam.notifier is not public; beams notify nobody upstream)
+            elif targets or ltargets:
+                op["src"], op["act"] = "p", rng.choice(targets + ltargets)
+            else:
+                return None
         elif kind.startswith("l."):
             ls = spec.get("laser")
             if not ls:
@@ -925,7 +972,7 @@ class SceneMachine(Machine):
             elif kind == "l.reassign":
                 op["what"] = rng.choice(["profile", "spectrum", "plasma"])
             elif kind == "l.reject":
-                op["attr"], op["value"] = rng.choice([["importance", -1.0], ["importance", -0.5]])
+                op["attr"], op["value"] = rng.choice([["importance", -1.0], ["importance", -0.5], ["integrator", None]])
         elif kind.startswith("b."):
             if not nb:
                 return None
@@ -937,8 +984,8 @@ class SceneMachine(Machine):
                 op["attr"] = rng.choice(BEAM_ATTRS)
                 op["value"] = gen_beam_value(rng, op["attr"])
             elif kind == "b.reject":
-                op["attr"] = rng.choice(BEAM_ATTRS)
-                op["value"] = -1.0
+                op["attr"] = rng.choice(BEAM_ATTRS + ["integrator"])
+                op["value"] = -1.0 if op["attr"] != "integrator" else None
             elif kind == "b.element":
                 op["el"] = rng.choice(["D", "H"])
             elif kind == "b.atomic_data":
@@ -983,6 +1030,8 @@ class SceneMachine(Machine):
             chans += ["beam.density", "beam.density", "beam.direction", "att.density", "ray"]
         if spec.get("laser"):
             chans += ["laser.materials", "ray"]
+        if any(x.get("rider") for x in spec["plasmas"] + spec["beams"]):
+            chans += ["riders", "riders"]
         ch = rng.choice(chans)
         return {"op": "observe", "channel": ch, "which": rng.randrange(6), "twice": rng.random() < 0.25}
 
@@ -1014,6 +1063,18 @@ class SceneMachine(Machine):
                             1.0 if seg.parent is scene.laser else 0.0]
                 out.append(float(len(scene.laser.children)))
                 out.append(-1.0 if scene.rider is None else (1.0 if scene.rider.parent is scene.laser else 0.0))
+                return "ok", np.array(out, dtype=float)
+            if channel == "riders":
+                # every user primitive parented to a plasma / beam node: still a child of its node, and seen by a ray aimed at it
+                out = []
+                dv = Vector3D(0.36, 0.48, 0.8)
+                for key in sorted(scene.riders):
+                    sph, node, pos = scene.riders[key]
+                    out.append(1.0 if sph.parent is node else 0.0)
+                    ctr = Point3D(*pos).transform(node.to_root())
+                    ray = Ray(origin=Point3D(ctr.x - 0.4 * dv.x, ctr.y - 0.4 * dv.y, ctr.z - 0.4 * dv.z), direction=dv,
+                              min_wavelength=500.0, max_wavelength=600.0, bins=4)
+                    out.append(float(np.sum(ray.trace(scene.world).samples)))
                 return "ok", np.array(out, dtype=float)
             if not scene.beams:
                 return "ok", np.zeros(0)
@@ -1076,6 +1137,7 @@ class SceneMachine(Machine):
         c.kept = []
         c.kept_pm = []
         c.kept_bm = []
+        c.hooks = []
         c.mut_since = {}
         c.seen_channels = set()
         c.observed = False
@@ -1169,7 +1231,7 @@ class SceneMachine(Machine):
             apply_spec(c.spec, dict(op, op="b.set"))
         if out != "noop":
             self._touch(c)
-            for ch in ("ray", "plasma.fields", "beam.density", "beam.direction", "att.density", "laser.materials"):
+            for ch in ("ray", "plasma.fields", "beam.density", "beam.direction", "att.density", "laser.materials", "riders"):
                 lst = c.mut_since.setdefault(ch, [])
                 if k not in lst and len(lst) < 6:
                     lst.append(k)
@@ -1194,6 +1256,8 @@ class SceneMachine(Machine):
                 self._compare(c, env, ch, which, after)
         if c.spec.get("laser"):
             self._compare(c, env, "laser.materials", 0, after)
+        if any(x.get("rider") for x in c.spec["plasmas"] + c.spec["beams"]):
+            self._compare(c, env, "riders", 0, after)
         if c.mutated_after_obs:
             env.nontrivial = True
 
@@ -1208,6 +1272,8 @@ class SceneMachine(Machine):
         k = op["op"]
         s, sp = c.scene, c.spec
         _CURRENT[0] = s
+        if k == "hook.add":
+            return self._add_hook(c, op, env)
         if k.startswith("p.") or k == "frame.transform":
             if k == "frame.transform":
                 if op["name"] not in s.frames:
@@ -1231,8 +1297,63 @@ class SceneMachine(Machine):
             return self._mutate_laser(c, op, env)
         return self._mutate_beam(c, op, env)
 
+    def _add_hook(self, c, op, env):
+        """Registers a user callback (documented use of the public notifiers) that re-assigns one attribute of another node to
+        the value it already has.  The final configuration is untouched, so the scene rebuilt from scratch needs no callback."""
+        s = c.scene
+        if op["src"] == "p":
+            src = s.plasmas[op["i"] % len(s.plasmas)]
+        elif s.laser is not None:
+            src = s.laser
+        else:
+            return "noop"
+        kind, j, what = op["act"]
+        if (kind == "b" and not s.beams) or (kind == "l" and s.laser is None):
+            return "noop"
+        depth = [0]
+
+        def hook():
+            if depth[0]:
+                return
+            depth[0] += 1
+            try:
+                if kind == "b":
+                    tgt = s.beams[j % len(s.beams)]
+                    if tgt is not None:
+                        setattr(tgt, what, getattr(tgt, what))
+                elif s.laser is not None:
+                    attr = {"profile": "laser_profile", "spectrum": "laser_spectrum"}.get(what, what)
+                    v = getattr(s.laser, attr)
+                    if v is not None:
+                        setattr(s.laser, attr, v)
+                env.probe("user_hook_fired")
+            except Exception:
+                env.probe("user_hook_raised")
+            finally:
+                depth[0] -= 1
+
+        src.notifier.add(hook)
+        c.hooks.append(hook)            # the notifier only holds a weak reference
+        env.probe("user_hook_registered")
+        return "ok"
+
+    def _refuse_none_integrator(self, env, node, label):
+        before = node.integrator
+        env.fault_armed("reject")
+        try:
+            node.integrator = None
+        except (TypeError, ValueError):
+            env.fault_fired("reject")
+            if node.integrator is not before:
+                raise Violation("reject-changed-state", label + ".integrator", "%s.integrator = None was refused but the node now reports %r" % (
+                    label, node.integrator))
+            return "raised:TypeError"
+        raise Violation("invalid-accepted", label + ".integrator", "%s.integrator = None was accepted: no scene can be built or observed with it" % label)
+
     def _mutate_plasma(self, c, op, env, s, sp, i, p, ps, k):
         if True:
+            if k == "p.reject":
+                return self._refuse_none_integrator(env, p, "plasma")
             if k == "p.bfield":
                 p.b_field = Vector3D(*op["v"])
             elif k == "p.electron":
@@ -1380,6 +1501,7 @@ class SceneMachine(Machine):
             elif k == "p.parent":
                 p.parent = parent_of(s, "p", i, op["to"])
             elif k == "p.recreate":
+                s.riders.pop(("p", i), None)
                 old = p
                 old.parent = None
                 if op.get("drop_first") and not op.get("keep"):
@@ -1408,6 +1530,8 @@ class SceneMachine(Machine):
             return "noop"
         i = op["i"] % len(s.beams)
         b, bs = s.beams[i], sp["beams"][i]
+        if k == "b.reject" and op["attr"] == "integrator":
+            return self._refuse_none_integrator(env, b, "beam")
         if k == "b.set" or k == "b.reject":
             try:
                 setattr(b, op["attr"], op["value"])
@@ -1516,6 +1640,7 @@ class SceneMachine(Machine):
         elif k == "b.parent":
             b.parent = parent_of(s, "b", i, op["to"])
         elif k == "b.recreate":
+            s.riders.pop(("b", i), None)
             old = b
             old.parent = None
             if op.get("drop_first") and not op.get("keep"):
@@ -1552,6 +1677,8 @@ class SceneMachine(Machine):
         elif k == "l.unset":
             l.laser_spectrum = None
             env.probe("prerequisite_unset")
+        elif k == "l.reject" and op["attr"] == "integrator":
+            return self._refuse_none_integrator(env, l, "laser")
         elif k == "l.reject":
             before = getattr(l, op["attr"])
             env.fault_armed("reject")
